@@ -161,8 +161,19 @@ pub proof fn lemma_close_marked(resp: Response)
     lemma_h_fields(resp, true, resp.headers.0@);
     let a = h_ct(resp);
     let tail = match blen(resp.body) { Some(n) => l_cl() + dec(n as nat) + l_crlf(), None => l_te() };
-    let z = tail + fields(resp.headers.0@) + crlf() + body_wire(resp.body);
-    assert(a + l_close() + z =~= ser(resp, true));
+    let rest = fields(resp.headers.0@) + crlf() + body_wire(resp.body);
+    let z = tail + rest;
+    // (step by step, so that each equality is a re-association of `+` only)
+    assert(h_auto(resp, true) =~= a + l_close() + tail);
+    assert(ser(resp, true) =~= h_auto(resp, true) + rest);
+    lemma_reassoc4(a, l_close(), tail, rest);
+    assert(z =~= tail + fields(resp.headers.0@) + crlf() + body_wire(resp.body));
+}
+// (a + b + c) + d == a + b + (c + d), stated abstractly so that no definition is unfolded while proving it
+pub proof fn lemma_reassoc4(a: Seq<u8>, b: Seq<u8>, c: Seq<u8>, d: Seq<u8>)
+    ensures (a + b + c) + d == a + b + (c + d)
+{
+    assert((a + b + c) + d =~= a + b + (c + d));
 }
 // the status code is printed as exactly three decimal digits for every code 100..=999
 pub proof fn lemma_dec3(c: u16)
